@@ -12,7 +12,7 @@ type extent struct {
 	size  uintptr
 	align uintptr
 	path  string
-	kind  string // ptr | slice | string
+	kind  string // ptr | slice | string | map
 }
 
 func (e extent) end() uintptr { return e.addr + e.size }
@@ -32,11 +32,12 @@ func Extents(rv reflect.Value) []extent {
 			a := uintptr(rv.UnsafePointer())
 			et := rv.Type().Elem()
 			if et.Size() > 0 {
+				// a target reached twice is reported twice (the owner check flags the sharing) but walked once
+				out = append(out, extent{a, et.Size(), uintptr(et.Align()), path + "*", "ptr"})
 				if seen[a] {
 					return
 				}
 				seen[a] = true
-				out = append(out, extent{a, et.Size(), uintptr(et.Align()), path + "*", "ptr"})
 			}
 			walk(rv.Elem(), path+"*")
 		case reflect.Struct:
@@ -63,6 +64,11 @@ func Extents(rv reflect.Value) []extent {
 				}
 			}
 		case reflect.Map:
+			if rv.IsNil() {
+				return
+			}
+			// the map object itself: every decoded map field owns its own (also when empty)
+			out = append(out, extent{uintptr(rv.UnsafePointer()), 8, 8, path + "{}", "map"})
 			it := rv.MapRange()
 			i := 0
 			for it.Next() {
